@@ -745,6 +745,10 @@ func (fr *Frame) binop(in *ssa.BinOp, st *State, pc Term) Term {
 		} else if x.Sort != y.Sort {
 			vc.warn("%s: comparison of different sorts", fr.fn.Name())
 			r = vc.fresh("cmp", SBool)
+		} else if arr, ok := xt.Underlying().(*types.Array); ok {
+			// Go compares the N elements; SMT array equality would also
+			// compare the (meaningless) indices outside 0..N-1
+			r = vc.arrayEq(x, y, arr)
 		} else {
 			r = eq(x, y)
 		}
@@ -840,6 +844,17 @@ func (fr *Frame) binop(in *ssa.BinOp, st *State, pc Term) Term {
 		r = vc.fresh("bin", SInt)
 	}
 	return r
+}
+
+func (vc *VC) arrayEq(x, y Term, arr *types.Array) Term {
+	if arr.Len() <= 32 {
+		var cs []Term
+		for i := int64(0); i < arr.Len(); i++ {
+			cs = append(cs, eq(sel(x, intLit(i)), sel(y, intLit(i))))
+		}
+		return and(cs...)
+	}
+	return T(SBool, "(forall ((ai Int)) (=> (and (<= 0 ai) (< ai %d)) (= (select %s ai) (select %s ai))))", arr.Len(), x.S, y.S)
 }
 
 func constOf(t Term) (*big.Int, bool) {
